@@ -829,6 +829,21 @@ def run_badchild(req):
         str(st)
     except BaseException as ex:
         obs.append({"kind": "format_raised", "exc": repr(ex)})
+    if req.get("summary"):
+        # the flat projection of that same Stack: the holder's frame with the exit stack's entry, one entry per
+        # registration (described or not), and the frame's own entry
+        for sh in (False, True):
+            try:
+                summ = list(st.as_stdlib_summary(show_contexts=True, show_hidden_frames=sh))
+                flat = st.format_flat(show_contexts=True)
+            except BaseException as ex:
+                obs.append({"kind": "summary_raised_for_a_stack_that_extract_returned", "exc": repr(ex)[:200], "kinds": req["kinds"]})
+                break
+            mine = [fs for fs in summ if fs.name.split(" ")[0] == "holder"]
+            if len(mine) != len(regs) + 2:
+                obs.append({"kind": "summary_entries", "got": [fs.name for fs in mine], "exp": len(regs) + 2})
+            if any(not ln.endswith("\n") for ln in flat):
+                obs.append({"kind": "format_flat_line_not_terminated"})
     co.close()
     return {"obs": obs, "stats": {"regs": len(regs)}}
 
